@@ -47,6 +47,10 @@ THEOREMS = ["QExPy.C10_mean_def",
             "QExPy.C10_selectors_zero",
             "QExPy.C10_used_downstream",
             "QExPy.C10_selected_used_downstream",
+            "QExPy.C10_used_downstream_via_intermediate",
+            "QExPy.C10_used_downstream_sq",
+            "QExPy.C10_via_intermediate_eq_direct",
+            "QExPy.C10_selected_used_downstream_via_intermediate",
             "QExPy.C10_used_downstream_pair",
             "QExPy.C10_used_downstream_sub",
             "QExPy.C10_used_downstream_prod",
@@ -153,6 +157,31 @@ def gen_special(rng):
     return tag, [v, v], [0.5, 2.0]
 
 
+MIDREADS = ["both", "both", "value", "error", "str", "none"]
+
+
+def gen_same_mean(rng, n):
+    """two DIFFERENT reading arrays whose means are EXACTLY equal (dyadic readings: every sum is exact
+    in binary64, so the two reported means are the same float): a permutation of the readings,
+    usually with two of them moved by +d / -d.  Two quantities that happen to have the same central
+    value are still two quantities."""
+    while True:
+        xs = [rng.choice([0.0, 16.0, -4.0]) + H.dyadic(rng, -200, 200) for _ in range(n)]
+        if len(set(xs)) < 2:
+            continue
+        ys = list(xs)
+        rng.shuffle(ys)
+        if n == 2:
+            ys = [xs[1], xs[0]]
+        if rng.random() < 0.6:
+            d = rng.choice([0.5, 1.0, 2.25, -3.0, 0.125])
+            i, j = (0, 1) if n == 2 else rng.sample(range(n), 2)
+            ys[i] += d
+            ys[j] -= d
+        if ys != xs and len(set(ys)) >= 2 and sum(F(x) for x in xs) == sum(F(y) for y in ys):
+            return xs, ys
+
+
 def gen_case(rng, malformed=False):
     n = rng.choice([2, 2, 3, 3, 4, 5, 5, 8, 10, 17, 40]) if rng.random() < 0.6 else rng.randint(2, 40)
     xs = gen_array(rng, n)
@@ -160,7 +189,10 @@ def gen_case(rng, malformed=False):
          "sels": [rng.choice(SELS) for _ in range(rng.choice([0, 1, 2, 3, 4, 6, 8]))],
          "k": bits(rng.choice([2.0, -3.0, 0.5, 1.0, -1.25])), "c": bits(rng.choice([0.0, 1.0, -7.5])),
          "pair": None, "bad": None, "mcvia": rng.choice(["value", "value", "global"]),
-         "mcn": rng.choice([8, 16, 33])}
+         "mcn": rng.choice([8, 16, 33]),
+         # the intermediate result k*a is made BEFORE the selector steps and looked at in this way
+         # (later calculations are then also built from it); Monte Carlo read built from it or afresh
+         "midread": rng.choice(MIDREADS), "mckept": rng.random() < 0.4}
     if not malformed and rng.random() < 0.2:
         tag, xs, es = gen_special(rng)
         c["special"] = tag
@@ -183,8 +215,13 @@ def gen_case(rng, malformed=False):
         c["es"] = [bits(e) for e in es]
     # second array for the inferred covariance (plain arrays only: property quantifier)
     if c["es"] is None and c["common"] is None and rng.random() < 0.8:
-        mode = rng.choice(["random", "random", "collinear", "collinear", "anti", "const", "unequal"])
-        if mode in ("collinear", "anti"):
+        mode = rng.choice(["random", "random", "collinear", "collinear", "anti", "const", "unequal",
+                           "same-mean", "same-mean"])
+        if mode == "same-mean":
+            xs, ys = gen_same_mean(rng, n)
+            c["xs"] = [bits(x) for x in xs]
+            c["pair"] = {"ys": [bits(y) for y in ys], "mode": mode}
+        elif mode in ("collinear", "anti"):
             xs = [rng.choice([0.0, 16.0, 1024.0]) + H.dyadic(rng) for _ in range(n)]
             if len(set(xs)) < 2:
                 xs[0] += 1.0
@@ -247,7 +284,7 @@ def gen_collinear_case(rng):
                      "sign": 1 if kk > 0 else -1, "via": "cov" if rng.random() < 0.85 else "corr",
                      "form": rng.choice(["fn", "meth"])},
             "bad": None, "special": "collinear-targeted", "mcvia": rng.choice(["value", "global"]),
-            "mcn": 8}
+            "mcn": 8, "midread": rng.choice(MIDREADS), "mckept": rng.random() < 0.4}
 
 
 def describe(c):
@@ -257,6 +294,9 @@ def describe(c):
                                    (", %r" % unbits(c["common"]) if c["common"] is not None else ""))
     if c["sels"]:
         d += " ; " + ", ".join(c["sels"])
+    if "midread" in c:
+        d += " ; k={!r}, c={!r}, mid=k*a and mid+c made at the start (read: {}), after every step k*a+c, " \
+             "mid+c, 1.0*(mid+c), mid*mid read".format(unbits(c["k"]), unbits(c["c"]), c["midread"])
     if c["pair"]:
         d += " ; infer {} ({} form) with {} array {!r}".format(
             c["pair"]["via"], c["pair"]["form"], c["pair"]["mode"], [unbits(y) for y in c["pair"]["ys"]])
@@ -288,10 +328,28 @@ def observe(q, c):
         s, v = rd(name)
         out[name] = v if s == "ok" else "exc:" + v
     kk, cc = unbits(c["k"]), unbits(c["c"])
+    # INTERMEDIATE RESULTS made and looked at BEFORE any selector step: mid = k*a and, one level up,
+    # mid2 = mid + c.  "Used in all later propagation" includes a later calculation that is written in
+    # terms of such an intermediate result (a result that was already evaluated is not a source)
+    mid = kk * a
+    mid2 = mid + cc
+    how = c.get("midread", "both")
+    for x in (mid, mid2):
+        if how in ("both", "value"):
+            H.call(lambda: float(x.value))
+        if how in ("both", "error"):
+            H.call(lambda: float(x.error))
+        if how == "str":
+            H.call(lambda: str(x))
 
     def state():
         d = kk * a + cc
-        return [float(a.value), float(a.error), float(d.value), float(d.error)]
+        d1 = mid + cc           # a NEW calculation from the intermediate result kept from the start
+        d2 = 1.0 * mid2         # ... and from the one built on top of it
+        d3 = mid * mid          # not linear in the intermediate: the product rule needs ITS central value
+        return [float(a.value), float(a.error), float(d.value), float(d.error),
+                float(d1.value), float(d1.error), float(d2.value), float(d2.error),
+                float(d3.value), float(d3.error)]
 
     def mc_state():
         """the SAME downstream formula under the Monte Carlo method: the draws are recorded, so the
@@ -300,7 +358,7 @@ def observe(q, c):
         n = c.get("mcn", 16)
         via = c.get("mcvia", "value")
         val, err = float(a.value), float(a.error)
-        d = kk * a + cc
+        d = (mid + cc) if c.get("mckept") else (kk * a + cc)
         try:
             if via == "global":
                 q.set_error_method(q.ErrorMethod.MONTE_CARLO)
@@ -356,6 +414,13 @@ def observe(q, c):
             p = {"set": s, "exc": v if s != "ok" else None}
             p["cov"] = float(q.get_covariance(a, b))
             p["corr"] = float(q.get_correlation(b, a))
+            # the same record through the other argument order and the method forms
+            p["more"] = {"q.get_covariance(b, a)": H.call(lambda: float(q.get_covariance(b, a)))[1],
+                         "a.get_covariance(b)": H.call(lambda: float(a.get_covariance(b)))[1],
+                         "b.get_covariance(a)": H.call(lambda: float(b.get_covariance(a)))[1],
+                         "q.get_correlation(a, b)": H.call(lambda: float(q.get_correlation(a, b)))[1],
+                         "a.get_correlation(b)": H.call(lambda: float(a.get_correlation(b)))[1],
+                         "b.get_correlation(a)": H.call(lambda: float(b.get_correlation(a)))[1]}
             p["stdx"], p["stdy"] = float(a.std), float(b.std)
             out["pair"] = p
     return out
@@ -372,6 +437,14 @@ def model_line(c):
 
 # ---------------------------------------------------------------- two sources downstream
 SHAPES = ["lin", "sub", "prod", "quot"]
+# the same formulas as NEW calculations from intermediate results (k1*a, k2*b, a*b) that were made and
+# read before any selector step / before the correlation was recorded
+KEPT = {"klin": "lin", "kprod": "prod", "ksq": "sq"}
+ALL_SHAPES = SHAPES + list(KEPT)
+SHAPE_TEXT = {"lin": "k1*a + k2*b + c", "sub": "a - b", "prod": "a * b", "quot": "a / b",
+              "klin": "ma + mb + c (ma = k1*a, mb = k2*b made and read at the start)",
+              "kprod": "1.0 * mp (mp = a*b made and read at the start)",
+              "ksq": "mp * mp (mp = a*b made and read at the start)"}
 RHO_MODES = ["inferred-cov", "inferred-corr", "explicit-corr", "none"]
 
 
@@ -390,8 +463,11 @@ def gen_pair2(rng):
         if len(set(xs)) >= 2:
             break
     mode = rng.choice(RHO_MODES)
-    rel = rng.choice(["random", "correlated", "correlated", "anti", "collinear"])
+    rel = rng.choice(["random", "correlated", "correlated", "anti", "collinear", "same-mean"])
     while True:
+        if rel == "same-mean":
+            xs, ys = gen_same_mean(rng, n)      # two quantities with exactly the same central value
+            break
         ys = [rng.choice([5.0, 40.0, -30.0]) + y for y in gen_array(rng, n)]
         if rel == "correlated":
             ys = [y + rng.choice([0.5, 2.0, 10.0]) * x for x, y in zip(xs, ys)]
@@ -472,12 +548,16 @@ def observe_pair2(q, c):
         out["exc"] = [a if st != "ok" else None, b if st2 != "ok" else None]
         return out
     k1, k2, cc = unbits(c["k1"]), unbits(c["k2"]), unbits(c["c"])
+    ma, mb, mp = k1 * a, k2 * b, a * b       # intermediate results, read now
+    for x in (ma, mb, mp):
+        H.call(lambda: (float(x.value), float(x.error)))
     forms = {"lin": lambda: k1 * a + k2 * b + cc, "sub": lambda: a - b, "prod": lambda: a * b,
-             "quot": lambda: a / b}
+             "quot": lambda: a / b, "klin": lambda: ma + mb + cc, "kprod": lambda: 1.0 * mp,
+             "ksq": lambda: mp * mp}
 
     def read():
         r = {"pairs": [float(a.value), float(a.error), float(b.value), float(b.error)]}
-        for sh in SHAPES:
+        for sh in ALL_SHAPES:
             s, d = H.call(forms[sh])
             if s != "ok":
                 r[sh] = "exc:" + str(d)
@@ -570,6 +650,8 @@ def radicand_terms(sh, k1, k2, va, ea, vb, eb, rho):
         da, db = 1.0, -1.0
     elif sh == "prod":
         da, db = vb, va
+    elif sh == "sq":            # (a*b)^2
+        da, db = 2.0 * va * vb * vb, 2.0 * va * va * vb
     else:
         da, db = 1.0 / vb, -va / (vb * vb)
     return [(da * ea) ** 2, (db * eb) ** 2, 2.0 * rho * ea * eb * da * db]
@@ -677,17 +759,21 @@ def exact_check_pair2(c, o, dist=None):
                      "{!r}".format(step, st["pairs"]), mc["sample"], mc["expected"], step=i, z=mc["z"],
                      clause="used in all later propagation, Monte Carlo")
                 break
-        for sh in SHAPES:
+        for shape in ALL_SHAPES:
+            sh = KEPT.get(shape, shape)         # the formula the shape stands for
             if sh == "quot" and abs(vb) < 1e-3 * mag_b:
                 continue
-            got = st[sh]
+            if shape not in st:
+                continue
+            got = st[shape]
             wantv, vmag = {"lin": (k1 * va + k2 * vb + cc, abs(k1) * mag_a + abs(k2) * mag_b + abs(cc)),
                            "sub": (va - vb, mag_a + mag_b), "prod": (va * vb, mag_a * mag_b),
+                           "sq": ((va * vb) ** 2, (mag_a * mag_b) ** 2),
                            "quot": (va / vb if vb else 0.0, mag_a / abs(vb) if vb else 1.0)}[sh]
             if isinstance(got, list) and isinstance(got[0], float) and \
                     not abs(got[0] - wantv) <= 1e-10 * max(vmag, abs(wantv)) + 1e-300:
-                fail("pair2:downstream:{}:value".format(sh), "after {} the value of {} is not the formula "
-                     "at the values in use".format(step, sh), got[0], wantv, step=i, shape=sh,
+                fail("pair2:downstream:{}:value".format(shape), "after {} the value of {} is not the formula "
+                     "at the values in use".format(step, SHAPE_TEXT[shape]), got[0], wantv, step=i, shape=shape,
                      clause="used in all later propagation")
                 bad = True
                 break
@@ -696,23 +782,23 @@ def exact_check_pair2(c, o, dist=None):
             R = sum(terms)
             if T == 0 or R < 1e-6 * T:
                 if dist is not None:
-                    dist["pair-downstream:skipped:radicand cancels (" + sh + ")"] += 1
+                    dist["pair-downstream:skipped:radicand cancels (" + shape + ")"] += 1
                 continue
             if dist is not None:
-                dist["pair-downstream:judged-read:" + sh + (":correlated" if r != 0 else ":uncorrelated")] += 1
+                dist["pair-downstream:judged-read:" + shape + (":correlated" if r != 0 else ":uncorrelated")] += 1
             want = math.sqrt(R)
             if not isinstance(got, list) or not isinstance(got[1], float):
-                fail("pair2:downstream:{}:exception".format(sh), "reading {} of the two repeated "
-                     "measurements raised after {}".format(sh, step), got, want, step=i, shape=sh,
+                fail("pair2:downstream:{}:exception".format(shape), "reading {} of the two repeated "
+                     "measurements raised after {}".format(SHAPE_TEXT[shape], step), got, want, step=i, shape=shape,
                      clause="used in all later propagation")
                 bad = True
                 break
             if not abs(got[1] - want) <= (1e-9 + 1e4 * tol) * math.sqrt(T):
-                fail("pair2:downstream:{}:error".format(sh),
+                fail("pair2:downstream:{}:error".format(shape),
                      "after {} the uncertainty of {} is not sqrt(sum (d_i sigma_i)^2 + 2 rho sigma_a sigma_b "
                      "d_a d_b) with the uncertainties in use sigma_a = {!r}, sigma_b = {!r} and rho = {!r}".format(
-                         step, {"lin": "k1*a + k2*b + c", "sub": "a - b", "prod": "a * b", "quot": "a / b"}[sh],
-                         ea, eb, r), got[1], want, step=i, shape=sh, radicand_terms=terms,
+                         step, SHAPE_TEXT[shape],
+                         ea, eb, r), got[1], want, step=i, shape=shape, radicand_terms=terms,
                      clause="used in all later propagation (quadrature and covariance terms)")
                 bad = True
                 break
@@ -757,9 +843,13 @@ def compare_pair2(c, o, m, dist):
                      clause="selectors")
                 return fails, False, False
         corr_on = corr_on or i >= c["rho_from"] and c["rho_mode"] != "none"
-        for sh in SHAPES:
+        for sh in ALL_SHAPES:
+            if sh not in st:
+                continue
+            if KEPT.get(sh, sh) not in md:
+                continue        # (a*b)^2: judged by the own first-order arithmetic only
             got = st[sh]
-            (mv, mvb), (me, meb) = fb(md[sh][0]), fb(md[sh][1])
+            (mv, mvb), (me, meb) = fb(md[KEPT.get(sh, sh)][0]), fb(md[KEPT.get(sh, sh)][1])
             if not (math.isfinite(me) and math.isfinite(meb) and meb <= 1e-6 * abs(me)):
                 continue                                  # the model's own bound: ill-conditioned
             if not isinstance(got, list) or not isinstance(got[0], float) or not isinstance(got[1], float):
@@ -775,6 +865,12 @@ def compare_pair2(c, o, m, dist):
 
 
 # ---------------------------------------------------------------- comparison
+FIELDS = ("value", "error", "downstream-value", "downstream-error",
+          "downstream-value:via-kept-intermediate", "downstream-error:via-kept-intermediate",
+          "downstream-value:via-kept-intermediate-2-levels", "downstream-error:via-kept-intermediate-2-levels",
+          "downstream-value:square-of-kept-intermediate", "downstream-error:square-of-kept-intermediate")
+
+
 def zero_spread_exact(c):
     xs = [unbits(x) for x in c["xs"]]
     x = xs[0]
@@ -824,11 +920,11 @@ def const_check(c, o, fail):
         if not isinstance(ot, list):
             fail("selector:{}:exception".format(sel), "selector / read raised " + str(ot), impl=ot)
             break
-        exp = [val, err, kk * val + cc, abs(kk) * err]
+        sq = [(kk * val) * (kk * val), abs(2 * (kk * val) * kk) * abs(err)]
+        exp = [val, err] + [kk * val + cc, abs(kk) * err] * 3 + sq
         # relative to the size of the TERMS (k*value and c may cancel), never to the result
-        mags = [abs(val), abs(err), abs(kk * val) + abs(cc), abs(kk) * abs(err)]
-        bad = [f for f, a, b, g in zip(("value", "error", "downstream-value", "downstream-error"), ot,
-                                       exp, mags)
+        mags = [abs(val), abs(err)] + [abs(kk * val) + abs(cc), abs(kk) * abs(err)] * 3 + sq
+        bad = [f for f, a, b, g in zip(FIELDS, ot, exp, mags)
                if not (a == b or abs(a - b) <= 1e-12 * g)]
         if bad:
             fail("selector:{}:{}".format(sel, bad[0]), "after {} the {} is not the selected statistic "
@@ -921,13 +1017,18 @@ def compare(c, o, m):
                 fail("stat:" + attr, "{} differs from its definition".format(attr), impl=o[attr],
                      expected=mv, bound=mb, clause=attr)
     # selector trace + downstream use
-    for i, (ot, mt, md) in enumerate(() if const else zip(o["trace"], m["trace"], m["down"])):
+    for i, (ot, mt, md, mv_, msq) in enumerate(() if const else zip(
+            o["trace"], m["trace"], m["down"], m.get("downvia") or m["down"],
+            m.get("downsq") or [None] * len(m["down"]))):
         sel = c["sels"][i - 1] if i else "init"
         if not isinstance(ot, list):
             fail("selector:{}:exception".format(sel), "selector / read raised " + str(ot), impl=ot)
             break
-        exp = [fb(mt[0]), fb(mt[1]), fb(md[0]), fb(md[1])]
-        for (mv, mb), ov, field in zip(exp, ot, ("value", "error", "downstream-value", "downstream-error")):
+        # mid + c is the tree of k*a + c; 1.0*(mid + c) is Model/Downstream.lean `downstreamVia`
+        exp = [fb(mt[0]), fb(mt[1])] + [fb(md[0]), fb(md[1])] * 2 + [fb(mv_[0]), fb(mv_[1])]
+        if msq is not None:     # mid*mid: Model/Downstream.lean `downstreamSq`
+            exp += [fb(msq[0]), fb(msq[1])]
+        for (mv, mb), ov, field in zip(exp, ot, FIELDS):
             if not close(ov, mv, mb, slack=256.0):
                 fail("selector:{}:{}".format(sel, field),
                      "after {} the {} is not the selected statistic".format(sel, field),
@@ -968,6 +1069,14 @@ def compare(c, o, m):
                 if not close(p["corr"], rv, rb, slack=256.0):
                     fail("infer:corr", "recorded correlation is not the normalised sample "
                          "covariance", impl=p["corr"], expected=rv, bound=rb)
+                for how, got in sorted((p.get("more") or {}).items()):
+                    mv_, mb_ = (cv, cb) if "covariance" in how else (rv, rb)
+                    if not isinstance(got, float) or not close(got, mv_, mb_, slack=256.0):
+                        fail("infer:{}:other-form".format("cov" if "covariance" in how else "corr"),
+                             "{} does not read the sample covariance / its normalised form that "
+                             "q.get_covariance(a, b) reads".format(how), impl=got, expected=mv_, bound=mb_,
+                             form=how, clause="inferred covariance")
+                        break
                 if abs(p["corr"]) > 1.0:
                     fail("infer:bound", "recorded correlation outside [-1, 1]", impl=p["corr"])
                 if mode in ("collinear", "anti"):
@@ -1012,6 +1121,12 @@ def run_cases(ctx, cases, ref=False):
         d["errors:" + ("each" if c["es"] else "common" if c["common"] is not None else "none")] += 1
         d["container:" + ("ndarray" if c["nd"] else "list")] += 1
         d["selectors:%d" % len(c["sels"])] += 1
+        if o.get("ctor") == "ok" and not c["bad"]:
+            d["kept-intermediate k*a read before the selector steps:" + c.get("midread", "both")] += 1
+            d["downstream reads of a NEW calculation from the kept intermediate (after every selector step)"] += \
+                sum(1 for t in o.get("trace", []) if isinstance(t, list) and len(t) >= 8)
+            d["monte-carlo-downstream-read:built " + ("from the kept intermediate" if c.get("mckept")
+                                                       else "afresh from the source")] += 1
         for i, r in enumerate(o.get("mctrace", [])):
             if isinstance(r, dict):
                 d["monte-carlo-downstream-read:after-" + (c["sels"][i - 1] if i else "construction")] += 1
@@ -1148,13 +1263,19 @@ def exact_check(c, o):
         if not isinstance(ot, list):
             fail("selector:exception", "selector raised", ot, None)
             break
-        exp = [val, err, kk * val + cc, abs(kk) * err]
-        mags = [vmag, err, abs(kk) * vmag + abs(cc), abs(kk) * err]
-        tols = [1e-12, tol, 1e-12, tol]
-        if not all(near(a, b, t, g) for a, b, t, g in zip(ot, exp, tols, mags)):
-            fail("selector:{}".format(c["sels"][i - 1] if i else "init"),
-                 "value/uncertainty in use (or used downstream) is not the selected statistic",
-                 ot, exp)
+        exp = [val, err] + [kk * val + cc, abs(kk) * err] * 3 + [
+            (kk * val) ** 2, 2 * abs(kk * val) * abs(kk) * err]
+        mags = [vmag, err] + [abs(kk) * vmag + abs(cc), abs(kk) * err] * 3 + [
+            (kk * vmag) ** 2, 2 * abs(kk) * vmag * abs(kk) * err]
+        tols = [1e-12, tol] + [1e-12, tol] * 3 + [4e-12, 2 * tol]
+        bad = [f for f, a, b, t, g in zip(FIELDS, ot, exp, tols, mags) if not near(a, b, t, g)]
+        if bad:
+            fail("selector:{}:{}".format(c["sels"][i - 1] if i else "init", bad[0]),
+                 "value/uncertainty in use (or used downstream{}) is not the selected statistic".format(
+                     ", in a NEW calculation built from an intermediate result k*a that was made and "
+                     "read ({}) before the selector steps".format(c.get("midread", "both"))
+                     if "kept" in bad[0] else ""),
+                 ot, exp, clause="selecting a statistic makes it the number used in all later propagation")
             break
     mc_downstream_check(c, o, lambda sig, what, **kw: fail(
         sig, what, kw.pop("impl", None), kw.pop("expected", None), **kw))
@@ -1172,6 +1293,16 @@ def exact_check(c, o):
                      p["cov"], r["cov"])
             if "corr" in r and abs(p["corr"] - r["corr"]) > t2 + 1e-12:
                 fail("infer:corr", "recorded correlation differs", p["corr"], r["corr"])
+            for how, got in sorted((p.get("more") or {}).items()):
+                want = r["cov"] if "covariance" in how else r.get("corr")
+                if want is None:
+                    continue
+                lim = t2 * scale + 1e-300 if "covariance" in how else t2 + 1e-12
+                if not isinstance(got, float) or abs(got - want) > lim:
+                    fail("infer:{}:other-form".format("cov" if "covariance" in how else "corr"),
+                         "{} differs from the sample covariance / its normalised form".format(how),
+                         got, want, form=how, clause="inferred covariance")
+                    break
             if abs(p["corr"]) > 1:
                 fail("infer:bound", "recorded correlation outside [-1,1]", p["corr"], None)
     return fails
